@@ -211,6 +211,13 @@ Definition g_cf_first_peer := mkSite 59 (Some CBlock) [RQuit CBlock] [].
 
 (* chanutils/batch_writer.go manageNewItems: select has <-b.quit *)
 Definition g_batch_writer := mkSite 70 (Some CBatch) [RQuit CBatch] [].
+(* manageNewItems after <-b.quit has fired: the writer persists the batch it
+   has collected so far (at most MaxBatch = 10 filters, one database
+   transaction) and leaves; whatever is still in its queue is dropped.  The
+   timer is a BUDGET for that one transaction (store writes are otherwise not
+   modelled); it is what the nominal duration of a Stop with a backlog in the
+   batch writer allows for the drain. *)
+Definition g_batch_final_write := mkSite 72 (Some CBatch) [RTimer 500] [].
 (* chanutils/queue.go: the goroutine of the writer's unbounded queue, stopped
    (close(cq.quit); wg.Wait) at the end of BatchWriter.Stop: every select has
    <-cq.quit *)
@@ -232,7 +239,7 @@ Definition internal_sites : list site :=
    g_sub_handler; g_sub_forwarder;
    g_block_handler; g_cf_cond; g_cf_retry; g_cf_query_all; g_cf_batch; g_cf_getblock;
    g_cf_notify; g_cf_in_peers; g_cf_in_submit; g_cf_first_peer;
-   g_batch_writer; g_batch_queue;
+   g_batch_writer; g_batch_queue; g_batch_final_write;
    g_svc_peer_handler; g_svc_misc; g_svc_in_newpeer].
 
 (* ------------------------------------------------------------------ *)
